@@ -18,11 +18,22 @@ POOLS = {"int": INT_POOL, "str": STR_POOL, "float": FLOAT_POOL, "mix": MIX_POOL}
 
 
 @st.composite
+def perm_st(draw, seq):
+    """A permutation drawn by repeated index draws (st.permutations rejects every byte string under
+    hypothesis' fuzz_one_input, which the coverage-guided campaigns rely on)."""
+    items = list(seq)
+    out = []
+    while items:
+        out.append(items.pop(draw(st.integers(0, len(items) - 1))))
+    return out
+
+
+@st.composite
 def arms_st(draw, kinds=("int", "str", "float"), min_size=1, max_size=5):
     kind = draw(st.sampled_from(list(kinds)))
     pool = POOLS[kind]
     n = draw(st.integers(min_size, min(max_size, len(pool))))
-    arms = draw(st.permutations(pool))[:n]
+    arms = draw(perm_st(pool))[:n]
     return kind, list(arms)
 
 
